@@ -146,3 +146,9 @@ Example blocked_schedule_ok :
   exists s, wrun false winit (blocked_schedule 2) = Some s /\
             stopper s = SRet /\ writers s = [WDone Ok; WDone Ok; WDone Err] /\ wgw s = 0.
 Proof. eexists. split; [vm_compute; reflexivity|]. repeat split. Qed.
+
+(* the [pred] in RdExit never meets a zero counter: wg.Done() of the handler is never a
+   negative-counter panic *)
+Theorem send_close_no_underflow ctm acts s :
+  wrun ctm winit acts = Some s -> reader s = RExiting -> wgw s = 1.
+Proof. intros R Hr. pose proof (wrun_inv _ _ _ _ WInv_init R) as [_ _ _ Wg]. now rewrite Hr in Wg. Qed.
